@@ -383,4 +383,167 @@ theorem header_to_bind (udc : Bool) (h : Str) (toks : List Str)
   match toks, h2 with
   | a :: b :: t, _ => simp
 
+/-! ## noninterference -/
+
+/-- the reference environment (names of top-level questions) does not depend on any logic cell -/
+theorem tops_unchanged (pre post : List RK) (r r' : RK) (hs : sameShape r r') :
+    topNames 0 (pre ++ r :: post) = topNames 0 (pre ++ r' :: post) :=
+  topNames_frame pre 0 r r' post hs
+
+/-- **noninterference** (walk level).  Replace row `j` (= `r`, after `pre`) by any row `r'` of the same
+    shape (same kind, same names — e.g. the same row with different logic cells): the bind lists of
+    the two forms are `a ++ m ++ b` and `a ++ m' ++ b` with the *same* `a` and `b`; only the segment
+    belonging to row `j` itself (at most as many binds as the row introduces elements) can differ.
+    The binds of every other row `i ≠ j` are unchanged, attribute for attribute. -/
+theorem noninterference (root : Str) (tops : List Str) (st : List (Str × Bool)) (pre post : List RK)
+    (r r' : RK) (hs : sameShape r r') (es es' : List Elem) (bs bs' : List Bind)
+    (hw : walk root st (pre ++ r :: post) = some es) (hw' : walk root st (pre ++ r' :: post) = some es')
+    (hr : renderAll root tops es = some bs) (hr' : renderAll root tops es' = some bs') :
+    ∃ a m m' b, bs = a ++ m ++ b ∧ bs' = a ++ m' ++ b ∧
+      m.length ≤ (rkNames r).length ∧ m'.length ≤ (rkNames r).length := by
+  obtain ⟨A, M, M', B, rfl, hw2, h1, h2, _⟩ := walk_frame root pre st r r' post es hs hw
+  rw [hw'] at hw2
+  simp only [Option.some.injEq] at hw2
+  subst hw2
+  obtain ⟨x, bB, hx, hB, rfl⟩ := renderAll_append root tops (A ++ M) B bs hr
+  obtain ⟨bA, bM, hA, hM, rfl⟩ := renderAll_append root tops A M x hx
+  obtain ⟨x', bB', hx', hB', rfl⟩ := renderAll_append root tops (A ++ M') B bs' hr'
+  obtain ⟨bA', bM', hA', hM', rfl⟩ := renderAll_append root tops A M' x' hx'
+  rw [hA] at hA'
+  rw [hB] at hB'
+  simp only [Option.some.injEq] at hA' hB'
+  subst hA' hB'
+  refine ⟨bA, bM, bM', bB, rfl, rfl, ?_, ?_⟩
+  · have := renderAll_length _ _ _ _ hM; omega
+  · have := renderAll_length _ _ _ _ hM'
+    rw [sameShape_names r r' hs]; omega
+
+theorem bindsOfRows_ok (root : Str) (ks : List RK) (bs : List Bind) (h : bindsOfRows root ks = .ok bs) :
+    ∃ es, walk root [] ks = some es ∧ renderAll root (topNames 0 ks) (es ++ [instanceID root]) = some bs := by
+  unfold bindsOfRows at h
+  simp only at h
+  split at h
+  · cases h
+  split at h
+  · cases h
+  split at h
+  · cases h
+  split at h
+  · cases h
+  next es hw =>
+  split at h
+  · cases h
+  next bs' hr =>
+  simp only [Out.ok.injEq] at h
+  subst h
+  exact ⟨es, hw, hr⟩
+
+/-- **noninterference** (whole form).  If a form converts, and still converts after the logic cells
+    of row `j` were changed (row replaced by one of the same shape), every bind outside row `j`'s own
+    segment is identical in both XForms — including the generated `meta/instanceID` bind. -/
+theorem noninterference_form (root : Str) (pre post : List RK) (r r' : RK) (hs : sameShape r r')
+    (bs bs' : List Bind)
+    (h : bindsOfRows root (pre ++ r :: post) = .ok bs) (h' : bindsOfRows root (pre ++ r' :: post) = .ok bs') :
+    ∃ a m m' b, bs = a ++ m ++ b ∧ bs' = a ++ m' ++ b ∧
+      m.length ≤ (rkNames r).length ∧ m'.length ≤ (rkNames r).length := by
+  obtain ⟨es, hw, hr⟩ := bindsOfRows_ok root _ bs h
+  obtain ⟨es', hw', hr'⟩ := bindsOfRows_ok root _ bs' h'
+  rw [← tops_unchanged pre post r r' hs] at hr'
+  obtain ⟨x, y, hx, hy, rfl⟩ := renderAll_append _ _ es _ bs hr
+  obtain ⟨x', y', hx', hy', rfl⟩ := renderAll_append _ _ es' _ bs' hr'
+  rw [hy] at hy'
+  simp only [Option.some.injEq] at hy'
+  subst hy'
+  obtain ⟨a, m, m', b, rfl, rfl, h1, h2⟩ :=
+    noninterference root _ [] pre post r r' hs es es' x x' hw hw' hx hx'
+  exact ⟨a, m, m', b ++ y, by simp, by simp, h1, h2⟩
+
+/-! ## non-vacuity: concrete data satisfying the hypotheses of the theorems above -/
+
+section Examples
+
+private def s (x : String) : Str := x.toList
+
+/-- `bind_of_row` / `lookup_attrsOf`: an `integer` row with `relevant = ${a} > 1`, `required = yes` and
+    a `bind::type` override -/
+example : attrsOf (s "data") [s "a"] (s "/data/q") false
+    (dictUpdate ([(s "type", s "int")].map fun (k, v) => (k, BVal.s v))
+      [(s "relevant", .s (s "${a} > 1")), (s "required", .s (s "yes")), (s "type", .s (s "string"))])
+    = some [(s "type", s "string"), (s "relevant", s " /data/a  > 1"), (s "required", s "true()")] := by
+  decide +kernel
+
+example : ([(s "relevant", BVal.s (s "${a} > 1")), (s "required", .s (s "yes")), (s "type", .s (s "string"))].map (·.1)).Nodup := by
+  decide +kernel
+
+/-- a triggered question's `calculate` does not reach the bind; a translated constraint message is
+    redirected to itext -/
+example : attrsOf (s "data") [s "a"] (s "/data/q") true
+    [(s "type", .s (s "string")), (s "calculate", .s (s "1 + 1")), (s "jr:constraintMsg", .d [(s "fr", s "Non")])]
+    = some [(s "type", s "string"), (s "jr:constraintMsg", s "jr:itext('/data/q:jr:constraintMsg')")] := by
+  decide +kernel
+
+/-- `header_to_bind`: a spelling with case and spacing noise -/
+example : lookup (toSnakeCase (s " Read  ONLY ")) surveyAliases = some [s "bind", s "readonly"] ∧
+    (∀ c ∈ s " Read  ONLY ", c ≠ ':') := by
+  decide +kernel
+
+example : processHeader true surveyAliases surveyColumns (s "Constraint  Message") =
+    some (.tup, [s "bind", s "jr:constraintMsg"]) := by
+  decide +kernel
+
+/-- `no_bind_without_logic`: the `trigger` type has no bind section -/
+example : typeBind (s "trigger") = none ∧ (typeBind (s "text")).isSome = true := by decide +kernel
+
+private def exRows (rel : String) : List RK :=
+  [ .qs [{ name := s "a", tt := typeBind (s "integer"), bind := none, visible := true }],
+    .begin_ false [] { name := s "g", tt := none, bind := some [(s "relevant", .s (s rel))] },
+    .qs [{ name := s "t", tt := typeBind (s "trigger"), bind := none, visible := true }],
+    .qs [{ name := s "n", tt := typeBind (s "note"), bind := some [(s "required", .s (s "no"))] }],
+    .end_ false ]
+
+private def shown (o : Out) : List (Str × List (Str × Str)) :=
+  match o with
+  | .ok bs => bs.map fun b => (Form.xpathStr b.path, b.attrs)
+  | _ => []
+
+/-- `one_bind_per_node`, `binds_exactly_where_prescribed`, `noninterference_form`: a form that converts
+    (the `trigger` row `t` has no logic and gets no bind; `n` gets the table's `readonly` and its own
+    `required`) -/
+example : shown (bindsOfRows (s "data") (exRows "${a} > 1")) =
+    [(s "/data/a", [(s "type", s "int")]),
+     (s "/data/g", [(s "relevant", s " /data/a  > 1")]),
+     (s "/data/g/n", [(s "readonly", s "true()"), (s "type", s "string"), (s "required", s "false()")]),
+     (s "/data/meta/instanceID", [(s "type", s "string"), (s "readonly", s "true()"), (s "jr:preload", s "uid")])] := by
+  decide +kernel
+
+/-- … and the same form with the logic cell of row `g` changed: only `g`'s own bind differs -/
+example : shown (bindsOfRows (s "data") (exRows "1 = 1")) =
+    [(s "/data/a", [(s "type", s "int")]),
+     (s "/data/g", [(s "relevant", s "1 = 1")]),
+     (s "/data/g/n", [(s "readonly", s "true()"), (s "type", s "string"), (s "required", s "false()")]),
+     (s "/data/meta/instanceID", [(s "type", s "string"), (s "readonly", s "true()"), (s "jr:preload", s "uid")])] := by
+  decide +kernel
+
+example : sameShape (.begin_ false [] { name := s "g", tt := none, bind := some [(s "relevant", .s (s "${a} > 1"))] })
+    (.begin_ false [] { name := s "g", tt := none, bind := some [(s "relevant", .s (s "1 = 1"))] }) := by
+  simp [sameShape]
+
+/-- the whole pipeline from a header row with alias / case / spacing / `bind::` spellings -/
+example : shown (formBinds (s "data") (s "default") []
+    [s " Type", s "name", s "Read Only", s "bind::foo", s "constraint_message::fr", s "Relevance"]
+    [[(s " Type", s "text"), (s "name", s "q1"), (s "Read Only", s "yes"), (s "constraint_message::fr", s "Non")],
+     [(s " Type", s "integer"), (s "name", s "q2"), (s "bind::foo", s "a  b"), (s "Relevance", s "${q1} = 'x'")]]) =
+    [(s "/data/q1", [(s "type", s "string"), (s "readonly", s "true()"),
+        (s "jr:constraintMsg", s "jr:itext('/data/q1:jr:constraintMsg')")]),
+     (s "/data/q2", [(s "type", s "int"), (s "foo", s "a b"), (s "relevant", s " /data/q1  = 'x'")]),
+     (s "/data/meta/instanceID", [(s "type", s "string"), (s "readonly", s "true()"), (s "jr:preload", s "uid")])] := by
+  decide +kernel
+
+/-- two spellings of one column are rejected, never merged or dropped -/
+example : (match formBinds (s "data") (s "default") [] [s "type", s "name", s "relevant", s "Relevance"] [] with
+    | .dupHeader _ _ => true | _ => false) = true := by
+  decide +kernel
+
+end Examples
+
 end Pyxv.C05
